@@ -206,7 +206,7 @@ class BurstInterp(Interp):
         for i, op in enumerate(prog.get("ops", [])):
             self.op_index = i
             await self.do_op(op)
-        if prog.get("family") in ("random", "churn"):
+        if prog.get("family") in ("random", "churn", "delete-race"):
             self.compare = False
             await self.run_concurrent(prog["burst_ops"])
             await self.teardown()
@@ -528,6 +528,43 @@ def generate(seed, tier, index, kf):
         base["latency"] = {"exec": r.choice(("zero", "small")), "db": r.choice(("zero", "small")), "net": r.choice(("bimodal", "slow", "wide"))}
         base["knobs"] = {"sock_buf": r.choice((64, 128, 512))}
         base.update({"family": "churn", "burst_ops": ops, "ops": [], "props": [PROP], "compare": False, "sessions": [{"id": s_, "proto": "imap"} for s_ in sids]})
+        return base
+    if r.random() < 0.08:
+        # "delete-race": a mailbox with many messages and a child is DELETEd (it becomes a \Noselect placeholder; the
+        # DELETE yields once per message it removes) while other sessions have commands queued on it - COPY / MOVE /
+        # APPEND into it, or STORE / SEARCH / EXPUNGE / FETCH from a session that has it selected. Every command gets
+        # the answer of one of the two orders, never "BAD Unhandled exception".
+        sids = ["sa", "sb", "sc"]
+        prof = {"mailboxes": ["inbox", "par"], "sessions": 3, "init_lo": 3, "init_hi": 5, "ops_lo": 1, "ops_hi": 1, "mode": "concurrent", "quiet_p": 0.0, "weights": {"noop": 1}}
+        base = mailstore.generate(seed, prof)
+        for mb in base["store"]["mailboxes"]:
+            if mb["name"] == "par":
+                k0 = (mb["msgs"][-1]["key"] + 1) if mb["msgs"] else 1
+                for j in range(r.randint(15, 40)):
+                    mb["msgs"].append({"tok": 500 + j, "key": k0 + j, "flags": [], "date": 1_690_000_000 + j, "shape": "plain"})
+        ops = [
+            {"s": "sa", "op": "create", "name": "par/kid", "when": {"delay": 0.0}},
+            {"s": "sa", "op": "select", "mbox": "inbox", "examine": False, "when": {"delay": 0.0}},
+            {"s": "sc", "op": "select", "mbox": "par", "examine": False, "when": {"delay": 0.0}},
+            {"s": "sb", "op": "delete", "name": "par", "when": {"delay": r.choice((0.0, 0.01, 0.05))}},
+        ]
+        for _k in range(r.randint(1, 3)):
+            x = r.random()
+            d = {"delay": r.choice((0.0, 0.0, 0.001, 0.005, 0.02, 0.1))}
+            if x < 0.3:
+                ops.append({"s": "sa", "op": r.choice(("copy", "move")), "uid": r.random() < 0.5, "set": {"pos": [1]}, "dst": "par", "when": d})
+            elif x < 0.5:
+                ops.append({"s": "sa", "op": "append", "mbox": "par", "tok": 700 + _k, "flags": [], "date": 1_650_000_000 + _k, "shape": "plain", "when": d})
+            elif x < 0.65:
+                ops.append({"s": "sc", "op": "store", "uid": True, "set": {"all": True}, "how": "+", "flags": ["\\Seen"], "silent": False, "when": d})
+            elif x < 0.8:
+                ops.append({"s": "sc", "op": r.choice(("expunge", "noop")), "when": d})
+            elif x < 0.9:
+                ops.append({"s": "sc", "op": "search", "uid": False, "key": "ALL", "when": d})
+            else:
+                ops.append({"s": "sc", "op": "fetch", "uid": False, "set": {"pos": [1]}, "items": "(FLAGS)", "when": d})
+        base["latency"] = {"exec": r.choice(("small", "bimodal")), "db": r.choice(("zero", "small")), "net": r.choice(("zero", "small"))}
+        base.update({"family": "delete-race", "burst_ops": ops, "ops": [], "props": [PROP], "compare": False, "sessions": [{"id": s_, "proto": "imap"} for s_ in sids]})
         return base
     store, tok = mailstore.initial_store(r, ["inbox", "work"], 3, 8, kw=["kw1"])
     burst, sel = gen_burst(r, store, sids)
